@@ -443,7 +443,7 @@ def run(ctx):
 
     res = Result()
     rng = ctx.rng('threads')
-    for i in range(ctx.n(400, 12000)):
+    for i in range(ctx.n(400, 60000)):
         case = {'kind': 'threads', 'seed': rng.randint(0, 2 ** 30),
                 'n': rng.randint(1, 4), 'split': rng.random() < 0.6}
         run_threads(case, res)
@@ -453,7 +453,7 @@ def run(ctx):
 
     rng = ctx.rng('cases')
 
-    for i in range(ctx.n(12000, 400000)):
+    for i in range(ctx.n(12000, 2000000)):
         case = gen_case(rng)
         res.evaluations += 1
         nt = run_case(case, res)
